@@ -144,7 +144,7 @@ static const lzma_allocator *const FRESH_ALLOC = &ARENA;
 // fresh coder (nc == NULL) or a caller-owned coder that is re-initialised without lzma_next_end()
 static int int_run(const filt *f, int enc, uint32_t param, const uint8_t *in, size_t n, uint8_t *out, const sched *sc,
 		lzma_next_coder *nc, int late, int null_opts) {
-	lzma_next_coder local = LZMA_NEXT_CODER_INIT; lzma_next_coder *c = nc ? nc : &local;
+	lzma_next_coder local = LZMA_NEXT_CODER_INIT; lzma_next_coder *c = nc ? nc : &local; H_TICK();
 	mock.remaining = n; mock.late = late;
 	const lzma_allocator *al = nc ? NULL : FRESH_ALLOC; arena_used = 0;
 	if (int_init_a(c, f, enc, param, null_opts, al) != LZMA_OK) { lzma_next_end(c, al); return Q_INIT; }
@@ -182,7 +182,7 @@ static void chain(const rawapi *api, const filt *f, uint32_t param, lzma_filter 
 }
 // one-shot buffer API: filter's output for 'in' (enc) or the filter decoder's output (dec); 0 = ok
 static int rawbuf_run(const rawapi *api, const filt *f, int enc, uint32_t param, const uint8_t *in, size_t n, uint8_t *out) {
-	lzma_filter a[3], b[3]; lzma_options_lzma lz; lzma_options_bcj ob; lzma_options_delta od;
+	lzma_filter a[3], b[3]; lzma_options_lzma lz; lzma_options_bcj ob; lzma_options_delta od; H_TICK();
 	chain(api, f, param, a, &lz, &ob, &od, enc);	// encode side: with filter if enc
 	chain(api, f, param, b, &lz, &ob, &od, !enc);	// decode side: with filter if dec
 	cbuf_need(n); size_t cp = 0, ipos = 0, op = 0;
@@ -217,7 +217,7 @@ static int drive_strm(lzma_stream *s, const uint8_t *in, size_t n, uint8_t *out,
 // streaming public API on 'strm' (fresh LZMA_STREAM_INIT or one that is being reused without lzma_end)
 static uint8_t *pre_c; static size_t pre_cn, pre_cap; static int pre_valid;
 static int pub_run(const filt *f, int enc, uint32_t param, const uint8_t *in, size_t n, uint8_t *out, const sched *sc, lzma_stream *strm) {
-	lzma_stream local = LZMA_STREAM_INIT; lzma_stream *s = strm ? strm : &local;
+	lzma_stream local = LZMA_STREAM_INIT; lzma_stream *s = strm ? strm : &local; H_TICK();
 	lzma_filter a[3], b[3]; lzma_options_lzma lz; lzma_options_bcj ob; lzma_options_delta od;
 	chain(&TREE, f, param, a, &lz, &ob, &od, 1); chain(&TREE, f, param, b, &lz, &ob, &od, 0);
 	cbuf_need(n); int rc; size_t cp = 0, op = 0, ipos = 0;
